@@ -17,9 +17,9 @@ OBLIGATIONS = [
      "order_ok (length class_names) (order_edges (all_classes (N.of_nat (length class_names))) rprogram "
      "(infer_entries (all_classes (N.of_nat (length class_names))) rprogram)) = true",
      "vm_compute. reflexivity."),
+    # by Proofs/SplitCsSound.sp_all_sound: on every path of every non-constructor function no field is written on a stale reading
     ("C11_gen_check_then_act",
-     "sp_program (all_classes (N.of_nat (length class_names))) rprogram (infer_entries (all_classes (N.of_nat (length class_names))) rprogram) "
-     "(fun f => in_scope (nth (N.to_nat f) field_names EmptyString)) = []",
+     "sp_all_ok (all_classes (N.of_nat (length class_names))) rprogram (infer_entries (all_classes (N.of_nat (length class_names))) rprogram) = true",
      "vm_compute. reflexivity."),
     ("C11_gen_translator_sane",
      "(200 <=? N.of_nat (length rprogram)) = true /\\ (1000 <=? n_accesses) = true /\\ (20 <=? N.of_nat (length class_names)) = true "
@@ -139,7 +139,7 @@ Open Scope string_scope.
 Definition ncl := N.of_nat (length class_names).
 Definition sv := Eval vm_compute in
   map (fun x => (nth (N.to_nat (fst x)) fn_names "?", map (fun v => nth (N.to_nat v) field_names "?") (snd x)))
-      (sp_program (all_classes ncl) rprogram (infer_entries (all_classes ncl) rprogram) (fun f => in_scope (nth (N.to_nat f) field_names EmptyString))).
+      (sp_program (all_classes ncl) rprogram (infer_entries (all_classes ncl) rprogram) (fun f => true)).
 Print sv.
 """
 
@@ -159,7 +159,7 @@ def report_split(res, pid, gd, must_contain):
         res.violation("static:check-then-act:%s" % fn,
                       "%s reads %s under a mutex, releases the mutex, takes it again and writes the field without reading it again: what it decided on the first "
                       "reading may no longer hold (two goroutines can both pass the check and both act)" % (fn, ", ".join(flds)),
-                      {"function": fn, "fields": flds, "analysis": "Model/SplitCs.v sp_program (may-analysis over the regenerated lock skeleton; no path-soundness theorem: a discipline rule)",
+                      {"function": fn, "fields": flds, "analysis": "Model/SplitCs.v sp_program over the regenerated lock skeleton (sound for every path: Proofs/SplitCsSound.v sp_all_sound); an empty field list = the function's lock sets differ between paths (certificate failed)",
                        "how": "bin/check %s regenerates the skeleton with harness/cmd/go2race and re-evaluates sp_program" % pid}, found_input=False)
     return n
 
